@@ -312,6 +312,13 @@ def avl_reject_then_remove(rng, cid, bits=None, lay=None, mode='persistent'):
             ops.append(rng.choice(['len', 'low', 'get %d' % rng.choice(keys)]))
     return Case(cid, 'avl', {'bits': bits, 'lay': lay, 'cap': cap, 'nrec': cap, 'mode': mode}, ops, {'stream': 'R'})
 
+def avl_large_case(rng, cid, cap=65534, lay='u32u32'):
+    """a 32-bit tree whose record count crosses 2^16 by growth: capacity words wider than 16 bits"""
+    # growth happens while no slot has been released: the model's list-based threading loop is quadratic
+    ops = ['capq', 'ins 10 1', 'ins 5 2', 'ins 20 3', 'ext 3', 'openro', 'capq', 'openmut', 'capq', 'len', 'full',
+           'ins 7 4', 'ins 8 5', 'get 7', 'low', 'ext 1', 'ins 9 6', 'capq', 'rem 5', 'ins 6 7', 'len']
+    return Case(cid, 'avl', {'bits': 32, 'lay': lay, 'cap': cap, 'nrec': cap, 'mode': 'persistent'}, ops, {'stream': 'L'})
+
 def avl_cap255_case(rng, cid, lay=None, mode='persistent', rounds=4):
     """the 8-bit tree at the largest capacity it can be initialised with: fill completely (the
     bump cursor wraps), then rounds of removals that end with / start with the key living in the
@@ -491,6 +498,16 @@ def arr_big_cases(rng, prefix_id):
     ops = ['ins %d 0' % k for k in range(1, 300)] + ['len', 'full', 'ins 1000 0', 'has 1000 0', 'len']
     out.append(Case('%s%d' % (prefix_id, i), 'arr', {'p': 1, 'vty': 'u32', 'slots': 300, 'mode': 'persistent'}, ops, {'stream': 'E'})); i += 1
     return out
+
+def arr_large_case(rng, cid, n=33000):
+    """a two-byte prefix counting more than 2^15 members: lookups and updates at the top, bottom and middle"""
+    cells = [(3 * i + 5, 0) for i in range(n)]
+    raw = arr_encode(2, 'u32', n, cells + [(0, 0)] * 6)
+    top = 3 * (n - 1) + 5
+    ops = ['len', 'has %d 0' % top, 'has %d 0' % (top + 1), 'get %d 0' % (top - 3), 'has 5 0', 'has 4 0',
+           'has %d 0' % (3 * (n // 2) + 5), 'ins %d 0' % (top + 7), 'ins %d 0' % (top - 1), 'ins 1 0', 'len',
+           'take %d 0' % (top + 7), 'take 5 0', 'has %d 0' % top, 'len', 'full']
+    return Case(cid, 'arr', {'p': 2, 'vty': 'u32', 'raw': raw.hex(), 'mode': 'persistent'}, ops, {'stream': 'L'})
 
 def arr_exhaustive(p, vty, slots, m, L, prefix_id):
     vals = list(range(1, m + 1))
